@@ -430,7 +430,10 @@ class Lab:
                 self.model[name]["last_use"] = self.tick
 
     def op_foreign(self):
-        names = ["notes.txt", "cachefile_only_prefix", "only_postfix_cachefile", "data.bin"]
+        hx = hashlib.md5(b"someone else's file").hexdigest()
+        # (the last two look like a cache file up to a suffix/prefix added by a user or a backup tool)
+        names = [f"cachefile_{hx}_cachefile.bak", "notes.txt", f"copy_of_cachefile_{hx}_cachefile", "cachefile_only_prefix",
+                 "only_postfix_cachefile", "data.bin"]
         fn = names[len(self.foreign) % len(names)]
         pth = os.path.join(self.root, fn)
         data = hashlib.sha256(fn.encode()).digest() * 20
